@@ -260,14 +260,33 @@ def ratio_direction(repo, res):
     old, new = fn.params[0], fn.params[1]
     ex = Expander(fn)
     rets = [n for n in ast.walk(fn.node) if isinstance(n, ast.Return)]
-    if len(rets) != 2:
-        raise AnalysisError(f"{fn.where()}: expected two returns")
+    if len(rets) < 2:
+        raise AnalysisError(f"{fn.where()}: the plain and the affine return were not both found")
     ratio_txt = f"{old}.base_value / {new}.base_value"
-    for r in rets:
+    # facts under which each return is reached (a literal factor is sound only where the two scales are known equal)
+    from engine.flow import enum_paths, path_facts
+
+    facts_of = {}
+    for pth in enum_paths(fn.body):
+        if pth[-1][0] == "return":
+            facts_of.setdefault(id(pth[-1][1]), []).append({(t, tr) for t, tr, _ in path_facts(pth)})
+    same_scale = {(f"{old} is {new}", True), (f"{old} == {new}", True), (f"{old}.base_value == {new}.base_value", True), (f"{new} is {old}", True), (f"{new} == {old}", True), (f"{old} is not {new}", False), (f"{old} != {new}", False)}
+    n_ratio = 0
+    for i, r in enumerate(rets):
         if not isinstance(r.value, ast.Tuple) or len(r.value.elts) != 2:
             raise AnalysisError(f"{fn.where(r)}: return is not a pair")
         first = ex.expand(r.value.elts[0])
-        res.check(first == ratio_txt, f"ratio@{'none' if norm(r.value.elts[1]) == 'None' else 'affine'}", fn.where(r), "conversion factor must be old scale / new scale", ratio_txt, first, rid=r4)
+        tag = 'none' if norm(r.value.elts[1]) == 'None' else 'affine'
+        if first == ratio_txt:
+            n_ratio += 1
+            res.ok(f"ratio@{tag}", r4)
+            continue
+        lit = isinstance(r.value.elts[0], ast.Constant) and r.value.elts[0].value in (1, 1.0)
+        guarded = lit and tag == "none" and all(fs & same_scale for fs in facts_of.get(id(r), [set()]))
+        conds = sorted(t for fs in facts_of.get(id(r), []) for t, tr in fs if tr)[-3:]
+        res.check(guarded, f"ratio@{tag}" if n_ratio < 2 and not lit else f"shortcut:{norm(r.value)}", fn.where(r), "a conversion factor is returned that is not old scale / new scale" + (f": the literal factor is taken under {conds}, which does not make the two scales equal (units of the same spelling from two registries, or a symbol modified in one of them, differ in scale)" if lit else ""), ratio_txt, first, rid=r4)
+    if n_ratio < 2:
+        res.bad("ratio-returns", fn.where(), "the plain and the affine exit must both return old scale / new scale", rid=r4)
     aff = [r for r in rets if norm(r.value.elts[1]) != "None"]
     if len(aff) != 1:
         raise AnalysisError(f"{fn.where()}: affine return not found")
